@@ -113,3 +113,25 @@ pub fn apply_edits(text: &str, edits: &[(Rng, String)]) -> Result<String, String
     }
     Ok(out)
 }
+
+/// Offsets of `text` that are usable as an edit boundary: character boundaries that are not
+/// between a CR and an LF and whose neighbourhood cannot form a new CRLF at a join.
+fn cut_points(text: &str) -> Vec<usize> {
+    let b = text.as_bytes();
+    (0..=text.len())
+        .filter(|&o| text.is_char_boundary(o) && !(o > 0 && b[o - 1] == b'\r') && !(o < text.len() && b[o] == b'\n'))
+        .collect()
+}
+
+/// Two ranged content changes for ONE didChange notification, in document order, that turn
+/// `from` into `to` when applied one after the other as the protocol says (the second range refers
+/// to the text the first change leaves). `pick` chooses the cut points (0..=65535 each).
+pub fn two_edits(from: &str, to: &str, pick: (u32, u32)) -> Vec<(Rng, String)> {
+    let (cf, ct) = (cut_points(from), cut_points(to));
+    let at = |v: &Vec<usize>, p: u32| v[((p as u64 * v.len() as u64) >> 16) as usize % v.len()];
+    let (a, c) = (at(&cf, pick.0 & 0xffff), at(&ct, pick.1 & 0xffff));
+    let first = (range_of(from, (0, a)), to[..c].to_owned());
+    let mid = format!("{}{}", &to[..c], &from[a..]);
+    let second = (range_of(&mid, (c, mid.len())), to[c..].to_owned());
+    vec![first, second]
+}
